@@ -472,17 +472,25 @@ class ProgGen:
         elif r < 0.6 and exec_ok:
             out.append(Node("stmt", self.rng.choice(["x0 = 1", "call ext()", "x0 = x0 + 2"])))
 
-    def var_decl(self, names=None, attrs=""):
+    def var_decl(self, names=None, attrs="", comment=True, semi_ok=True):
         rng = self.rng
         if names is None:
             names = [self.name("v") for _ in range(rng.choice([1, 1, 1, 2, 3]))]
+        else:
+            semi_ok = False
         ty = rng.choice(["integer", "real", "logical", "character(len=3)", "real, dimension(2)", "double precision"])
         decls = []
         for n in names:
             r = rng.random()
             decls.append(n + ("(3)" if r < 0.15 and "dimension" not in ty else " = 1" if r < 0.3 and ty == "integer" and not attrs else ""))
         text = f"{self.kw(ty)}{attrs} :: " + ", ".join(decls)
-        return Node("entity", text, names, self.maybe_comment(names))
+        node = Node("entity", text, names, self.maybe_comment(names) if comment else None)
+        if semi_ok and comment and rng.random() < 0.14:
+            # several statements on one source line, separated by `;`: the declarations in front of this one
+            # stand on the same line; a comment that follows the line (inline at its end, or on the next
+            # lines) follows the LAST statement, so it documents that one and none of the others
+            node.semi = [self.var_decl(None, attrs, comment=False, semi_ok=False) for _ in range(rng.choice([1, 1, 2]))]
+        return node
 
     def literal_decl(self):
         """A character declaration whose initial value is a concatenation of character literals.  The literals
@@ -539,14 +547,27 @@ class ProgGen:
         else:
             head = f"{prefix}{self.kw('subroutine')} {name}({', '.join(args)})" if args or rng.random() < 0.6 else f"{prefix}subroutine {name}"
             endk = "subroutine"
-        for a in args:
+        if len(args) == 2 and rng.random() < 0.25:
+            # both dummy arguments declared on one line: `integer :: a; integer :: b !! describes b`
             self.filler(body)
-            body.append(self.var_decl([a], rng.choice([", intent(in)", ", intent(inout)", ""])))
+            first = self.var_decl([args[0]], rng.choice([", intent(in)", ", intent(inout)", ""]), comment=False)
+            body.append(self.var_decl([args[1]], rng.choice([", intent(in)", ", intent(inout)", ""])))
+            body[-1].semi = [first]
+        else:
+            for a in args:
+                self.filler(body)
+                body.append(self.var_decl([a], rng.choice([", intent(in)", ", intent(inout)", ""])))
         if is_fn:
             body.append(self.var_decl([res]))
         for _ in range(rng.randint(0, 2)):
             self.filler(body)
             body.append(self.var_decl() if rng.random() < 0.85 else self.literal_decl())
+        if rng.random() < 0.3:
+            # a derived type local to the procedure: FORD gives it (and its components) no URL - neither a page
+            # nor a place on a page of its own; what its card shows is `meta.summary`
+            self.filler(body)
+            body.append(self.dtype([]))
+            body[-1].local_type = True
         for _ in range(rng.randint(0, 2)):
             self.filler(body, True)
             body.append(Node("stmt", rng.choice(["x0 = 1", "call ext(1)", "if (x0 > 1) x0 = 2"])))
@@ -770,6 +791,10 @@ class ProgGen:
 STYLES = ["following", "following-inline", "pre", "alt", "prealt", "pre-mixed", "pre-segments", "following-segments",
           "pre-and-following"]
 FALLBACK = {"pre-mixed": "pre", "pre-segments": "pre", "following-segments": "following", "pre-and-following": "pre"}
+# a line of several `;`-separated statements: only documentation that FOLLOWS the line is generated (it follows the
+# last statement).  A preceding block in front of such a line is not generated: the documented rule ("documents what
+# it precedes") would name the first statement, the reader hands the block over after the whole line (see notes).
+SEMI_STYLES = ["following", "following-inline", "following-inline", "alt", "following-segments"]
 
 
 def assign_styles(rng, nodes, uniform=None):
@@ -777,6 +802,8 @@ def assign_styles(rng, nodes, uniform=None):
         if n.kind == "entity":
             if n.comment is not None:
                 n.style = uniform or rng.choice(STYLES)
+                if getattr(n, "semi", None) and n.style not in SEMI_STYLES:
+                    n.style = rng.choice(SEMI_STYLES)
                 if n.style in FALLBACK and len(n.comment.lines) < 2:
                     n.style = FALLBACK[n.style]  # nothing to mix in a one-line comment
                 if n.style == "following-inline" and n.comment.lines[0] == "":
@@ -993,6 +1020,8 @@ def render(rng, nodes, marks, layout, files=None):
                         sp_of[nm] = sp
                 if getattr(n, "iface_block", None):
                     layout.add("interface-block:" + n.iface_block + (":documented" if c is not None else ""))
+                if getattr(n, "local_type", None):
+                    layout.add("type-local-to-a-procedure" + (":documented" if c is not None else ""))
                 if c is not None:
                     layout.add("style:" + st)
                     if len(segs) > 1:
@@ -1008,6 +1037,20 @@ def render(rng, nodes, marks, layout, files=None):
                             if pre_segs[-1][0] in ("P", "Ppure") else "")
                         layout.add("gap-before-statement")
                 stmt = lit_lines(rng, n, marks, ind, layout) if getattr(n, "lit", None) else [ind + n.text]
+                semi = getattr(n, "semi", None) or []
+                if semi:
+                    sep = rng.choice(["; ", "; ", ";", " ; "])
+                    stmt = [ind + sep.join([p.text for p in semi] + [n.text])]
+                    layout.add("several-statements-on-one-line")
+                    layout.add(f"several-statements-on-one-line:{len(semi) + 1}")
+                    if rng.random() < 0.12:
+                        stmt[0] += rng.choice([";", " ;"])
+                        layout.add("several-statements-on-one-line:trailing-semicolon")
+                    if c is not None:
+                        layout.add("several-statements-on-one-line:documented:" + st)
+                    for p in semi:
+                        for nm in p.names:
+                            expected.setdefault(nm, ([], {}, set(), []))[2].add("earlier-statement-of-a-line")
                 for l in stmt[:-1]:
                     put(l)
                 line = stmt[-1]
@@ -1020,6 +1063,8 @@ def render(rng, nodes, marks, layout, files=None):
                     line += rng.choice([" ", "  ", ""]) + "!" + doc + sp + t0
                     inline = True
                     layout.add("first-line-inline")
+                    if semi:
+                        layout.add("several-statements-on-one-line:inline-doc-at-the-end")
                 put(line)
                 state["no_plain_comment_next"] = False
                 if fol_segs:
@@ -1075,7 +1120,7 @@ def render(rng, nodes, marks, layout, files=None):
         for n in nodes:
             if n.kind == "entity":
                 if inside:
-                    for nm in n.names:
+                    for nm in n.names + [x for p in (getattr(n, "semi", None) or []) for x in p.names]:
                         if getattr(n, "public_component", False):
                             # FORD lists this very object among the components of every extending type too
                             expected[nm][2].add("public-component-of-extended-type")
@@ -1255,6 +1300,62 @@ def str_meta(it):
     return out
 
 
+def _safe_url(it):
+    try:
+        return it.get_url()
+    except Exception:  # noqa
+        return None
+
+
+def html_words(html):
+    """tracer words of the visible text of an HTML fragment; FORD's own "Read more" link is taken out and
+    returned separately (list of href values)"""
+    from bs4 import BeautifulSoup
+    soup = BeautifulSoup(html or "", "html.parser")
+    more = []
+    for a in soup.find_all("a", class_="pull-right"):
+        more.append(a.get("href", ""))
+        a.decompose()
+    for sup in soup.find_all("sup"):
+        if sup.find("a", class_="footnote-ref"):
+            sup.replace_with(" ")
+    return TRACER.findall(soup.get_text()), more
+
+
+def oracle_summary(name, exp, obs):
+    """Property oracle for the short form of an entity's documentation (`meta.summary`: what listings, cards of
+    types / interfaces and variable tables show).  From the property statement: what is shown for an entity is
+    text of its own comment, every word at most once and in order (a contiguous part: the first paragraph); an
+    entity that has no place of its own where the complete documentation could be (no URL) shows all of it; a
+    shortened summary leads to the complete documentation (link to the entity's URL); with a `summary:` metadata
+    the summary is that value (checked with the metadata).  Only evaluated when the documentation itself is right."""
+    if not obs.get("conversions") or not obs.get("has_doc"):
+        return None
+    own = exp[0]
+    summ = obs.get("summary")
+    if exp[1].get("summary") or obs.get("summary_meta_set"):
+        return None
+    if not isinstance(summ, str):
+        return f"entity {name!r}: converted, but its summary is {summ!r}" if own else None
+    words, more = html_words(summ)
+    foreign = [w for w in words if w not in own]
+    if foreign:
+        return f"entity {name!r}: its summary shows words of other comments: {foreign[:6]}"
+    k = len(words)
+    if words and not any(own[i:i + k] == words for i in range(len(own) - k + 1)):
+        return (f"entity {name!r}: its summary shows {words[:8]}, which is not a contiguous part of its comment's "
+                f"words {own[:12]} (dropped, duplicated or reordered words)")
+    url = obs.get("url")
+    if not url and words != own:
+        return (f"entity {name!r} has no URL (no page, no place on a page of its own), so its summary is all that is "
+                f"shown of its comment, but the summary has {words[:8]} of the comment's words {own[:12]}")
+    if url and words != own:
+        if len(more) != 1 or not more[0].endswith(url.split("#")[0]) and url not in more[0]:
+            return (f"entity {name!r}: its summary is shortened ({len(words)} of {len(own)} words) but does not lead "
+                    f"to the complete documentation at {url!r}: links {more}")
+    return None
+
+
 def observe(ford, d: Path, lines, marks, A, captured, skip_attrs=("external_url",), display=None, inherited=(),
             files=None):
     """Real code on one generated file.  Returns dict with per-entity observations or an error.
@@ -1276,6 +1377,7 @@ def observe(ford, d: Path, lines, marks, A, captured, skip_attrs=("external_url"
     orig_rm = sf.FortranBase.read_metadata
     orig_md = sf.FortranBase.markdown
     conv_order = []   # objects whose `markdown` ran, in call order
+    conv_log: dict = {}  # id(entity) -> [(text handed to md.convert, what it returned)]
 
     def rm_spy(self):
         handed_meta[id(self)] = list(self.doc_list)
@@ -1330,6 +1432,15 @@ def observe(ford, d: Path, lines, marks, A, captured, skip_attrs=("external_url"
             had_meta = {str(i) for i, it in enumerate(reg) if parsed["meta"][id(it)]}
             captured.clear()
             sf.FortranBase.markdown = md_spy
+            orig_convert = md.convert
+
+            def convert_spy(text, *a, **kw):
+                out = orig_convert(text, *a, **kw)
+                ctx = kw.get("context", a[0] if a else None)
+                conv_log.setdefault(id(ctx), []).append((text, out))
+                return out
+
+            md.convert = convert_spy
             p.markdown(md)
             sf.FortranBase.markdown = orig_md
             known = {id(x) for x in items}
@@ -1370,6 +1481,9 @@ def observe(ford, d: Path, lines, marks, A, captured, skip_attrs=("external_url"
              "abbr_title_words": TRACER.findall(" ".join(titles)),
              "meta_parsed": parsed["meta"].get(id(it), meta), "raw_doc": raw[:80],
              "origin": origin, "has_doc": has_doc, "conversions": n_conv.get(id(it), 0),
+             "doc_full": raw, "url": _safe_url(it), "summary": getattr(getattr(it, "meta", None), "summary", None),
+             "converted": [o for _, o in conv_log.get(id(it), [])],
+             "summary_meta_set": "summary" in (parsed["meta"].get(id(it)) or {}),
              "kind": type(it).__name__, "parent": (getattr(getattr(it, "parent", None), "name", "") or "").lower()}
         by_id[id(it)] = e
         ents.append(e)
@@ -1396,6 +1510,13 @@ def classify(feat, key="", kind=None, abbr_before=(), raw_doc_list=(), obs=None)
         leaked = {t for t in abbr_before if "abbr-use:" + t in feat and "abbr-def:" + t not in feat}
         return "C03-abbreviation-leaks-to-later-entities" if leaked else None
     if kind in ("foreign-attr", "attr-word-shown"):
+        return None
+    if kind == "summary":
+        # only excused: an entity without URL whose rendered documentation has no paragraph at all (only a
+        # list / a code block) and whose summary is empty
+        if obs is not None and not obs.get("url") and obs.get("summary") == "" and \
+                "<p>" not in (obs.get("doc_full") or "").lower():
+            return "C03-summary-empty-without-paragraph-and-url"
         return None
     if kind == "words-or-meta" and obs is not None and obs.get("oracle_detail") == "words" and \
             "generic-binding-of-extended-type" in feat and obs.get("kind") == "FortranBoundProcedure" and \
@@ -1607,7 +1728,75 @@ def variants(ford):
             flags += "a"
     except Exception:
         pass
+    try:
+        from translate import c03 as T
+        import ford.sourceform as sf
+        if T.markdown_summary(sf, "<ul>\n<li>x</li>\n</ul>", None)[0] == "<ul>\n<li>x</li>\n</ul>":
+            flags += "p"
+    except Exception:
+        pass
     return flags or "-"
+
+
+SUMMARY_ATOMS = ["<p>", "</p>", "<P>", "</P>", "<p", "p>", "</p", "<p >", "</ p>", "<pre>", "</pre>", "<p><p>", "</p></p>",
+                 "t1q0", "t1q1 t1q2", " ", "\n", "  ", "<ul>\n<li>t1q3</li>\n</ul>", "<div class=\"alert\">", "</div>",
+                 "<em>t1q4</em>", "<", ">", "/", "\n\n", "<li>"]
+
+
+def summary_stream(ford, drv, rng, n, rep, hist, flags):
+    """`FortranBase.markdown`, the part after the conversion (which `meta.summary` an entity gets), vs Lean
+    `summaryOfV`: the real method on a bare entity with a stand-in Markdown instance whose `convert` returns a
+    generated HTML text (paragraph tags in both letter cases, unclosed / nested / split tags, text around them,
+    leading and trailing blanks), with and without URL, with and without a `summary:` metadata; and
+    `PARA_CAPTURE_RE.search` itself vs Lean `paraCapture`."""
+    from translate import c03 as T
+    import ford.sourceform as sf
+
+    reqs, exp = [], []
+    rx = getattr(sf, "PARA_CAPTURE_RE", None)
+    for k in range(n):
+        r = rng.random()
+        if r < 0.5:
+            # what Markdown returns: blocks separated by newlines
+            blocks = []
+            for _ in range(rng.randint(0, 3)):
+                blocks.append(rng.choice(["<p>t1q0 t1q1</p>", "<p>t1q2\nt1q3</p>", "<ul>\n<li>t1q4</li>\n</ul>",
+                                          "<pre><code>t1q5\n</code></pre>", "<div class=\"alert alert-info\">\n<p>t1q6</p>\n</div>",
+                                          "<ul>\n<li>\n<p>t1q7</p>\n</li>\n</ul>", "<h2>t1q8</h2>"]))
+            doc = "\n".join(blocks) + rng.choice(["", "", "\n", " "])
+        else:
+            doc = "".join(rng.choice(SUMMARY_ATOMS) for _ in range(rng.randint(0, 7)))
+        url = rng.choice([None, None, "proc/s1.html", "module/m1.html#variable-v2", "type/ty3.html"])
+        if rng.random() < 0.25:
+            ms_raw = "m1summary5"
+            ms = rng.choice(["<p>m1summary5</p>", doc, doc.strip(), " " + doc + "\n", "", "m1summary5"])
+        else:
+            ms_raw = ms = None
+        try:
+            got, handed = T.markdown_summary(sf, doc, url, ms_raw, ms)
+            e = ["ok", got if isinstance(got, str) else "<" + repr(got) + ">"]
+            if ms_raw is not None and handed[1:] != [ms_raw]:
+                e = ["err", "summary-metadata-not-converted-once"]
+        except Exception as x:  # noqa
+            e = ["err", type(x).__name__]
+        reqs.append(["c03.summary", flags, doc, "-" if url is None else "U" + url, "-" if ms is None else "S" + ms])
+        exp.append(e)
+        key = "summary:" + ("summary-metadata" if ms is not None else "paragraph" if "<p>" in doc.lower() and "</p>" in doc.lower() else "no-paragraph") \
+            + (":url" if url else ":no-url")
+        hist[key] = hist.get(key, 0) + 1
+        if rx is not None:
+            m = rx.search(doc)
+            reqs.append(["c03.para", doc])
+            exp.append(["none"] if m is None else ["ok", doc[:m.start()], m.group(), doc[m.end():]])
+    got = drv.batch(reqs)
+    bad = 0
+    for r, e, g in zip(reqs, exp, got):
+        if e != g:
+            bad += 1
+            if bad <= 5:
+                rep.tie_broken(f"correspondence micro/{r[0][4:]}: model {g[:4]} vs implementation {e[:4]} on {r[1:]!r}"[:600],
+                               {"stream": "micro/" + r[0][4:], "request": r, "impl": e, "model": g})
+    return len(reqs), bad
 
 
 def rmeta_model_fields(g):
@@ -1925,6 +2114,7 @@ def program_stream(ford, drv, rng, n, rep, hist, samples, distinct, replay_case=
                     cases.append((lines, expected, marks, layout, display, files))
         model = drv.batch([attach_request(flags, marks, lines, files) for lines, _, marks, _, _, files in cases])
         pipe_reqs, pipe_ctx = [], []
+        summ_reqs, summ_ctx = [], []
         md_reqs, md_ctx = [], []
         conv_reqs, conv_ctx = [], []
         with common.scratch_dir() as d:
@@ -1990,6 +2180,25 @@ def program_stream(ford, drv, rng, n, rep, hist, samples, distinct, replay_case=
                 # ---- request for the model of the conversion schedule: which registered entities are converted
                 conv_reqs.append(["c03.convert", flags, *obs["conv_req"]])
                 conv_ctx.append((case, obs["conv_impl"], obs["placeholder_impl"], obs["reset_impl"], obs["had_meta"]))
+                # ---- request for the model of the summary rule: per converted entity (doc, URL, converted summary metadata)
+                for e in obs["conv_ents"]:
+                    if not isinstance(e["summary"], str) or "\t" in e["doc_full"]:
+                        continue
+                    conv = e["converted"]
+                    ms = conv[1] if len(conv) > 1 else None
+                    if e["summary_meta_set"] != (ms is not None) or len(conv) > 2:
+                        n_corr += 1
+                        rep.tie_broken(f"correspondence program/summary: entity {e['key']!r}: summary metadata set = "
+                                       f"{e['summary_meta_set']}, but Markdown was called {len(conv)} time(s) for it", case)
+                        continue
+                    summ_reqs.append(["c03.summary", flags, e["doc_full"], "U" + e["url"] if e["url"] else "-",
+                                      "-" if ms is None else "S" + ms])
+                    summ_ctx.append((case, e["key"], e["summary"]))
+                    hk = "summary-of-entity:" + ("summary-metadata" if ms is not None else
+                                                 "no-paragraph" if "<p>" not in e["doc_full"].lower() else
+                                                 "whole-doc" if e["summary"].strip() == e["doc_full"].strip() else "first-paragraph") \
+                        + (":url" if e["url"] else ":no-url")
+                    hist[hk] = hist.get(hk, 0) + 1
                 # ---- property oracle
                 seen = set()
                 failed = False
@@ -2010,6 +2219,9 @@ def program_stream(ford, drv, rng, n, rep, hist, samples, distinct, replay_case=
                         exp = ([], {}, set(), [])
                     seen.add(e["key"])
                     why, kind = oracle_entity(e["key"], exp, e)
+                    if not why:
+                        why = oracle_summary(e["key"], exp, e)
+                        kind = "summary" if why else None
                     for f in exp[2]:
                         hist["doc:" + f] = hist.get("doc:" + f, 0) + 1
                     if exp[0]:
@@ -2076,6 +2288,11 @@ def program_stream(ford, drv, rng, n, rep, hist, samples, distinct, replay_case=
                 rep.tie_broken(f"correspondence program/convert: registered entities whose metadata was emptied "
                                f"between parsing and conversion: model {mo_rs[:20]} vs implementation {rs_im[:20]}"[:400],
                                case)
+        for g, (case, key, im) in zip(drv.batch(summ_reqs), summ_ctx):
+            if g != ["ok", im]:
+                n_corr += 1
+                rep.tie_broken(f"correspondence program/summary: entity {key!r}: model of the summary rule of "
+                               f"FortranBase.markdown gives {g[1:2]} vs implementation {im!r}"[:500], case)
         got = drv.batch(pipe_reqs)
         for g, (im, case, key) in zip(got, pipe_ctx):
             g = g[:2] if g[0] == "err" else g
@@ -2084,7 +2301,7 @@ def program_stream(ford, drv, rng, n, rep, hist, samples, distinct, replay_case=
                 rep.tie_broken(f"correspondence program/pipeline: entity {key!r} model {g[:5]} vs implementation {im[:5]}", case)
     finally:
         A.AdmonitionPreprocessor.run = orig_run
-    return len(cases), n_ent, len(pipe_reqs) + len(md_reqs) + len(conv_reqs), n_corr, n_orc
+    return len(cases), n_ent, len(pipe_reqs) + len(md_reqs) + len(conv_reqs) + len(summ_reqs), n_corr, n_orc
 
 
 def run(tier: str, seed: int, replay: str | None = None) -> int:
@@ -2138,6 +2355,9 @@ def run(tier: str, seed: int, replay: str | None = None) -> int:
         ev_r, bad_r = inquote_stream(ford, drv, rng, tier, rep, hist)
         ev_micro += ev_r
         bad_micro += bad_r
+        ev_r, bad_r = summary_stream(ford, drv, rng, n_micro, rep, hist, flags)
+        ev_micro += ev_r
+        bad_micro += bad_r
     n_cases, n_ent, n_pipe, n_corr, n_orc = program_stream(ford, drv, rng, n_prog, rep, hist, samples, distinct,
                                                            replay_case, flags,
                                                            tuple(table.get("skip_attrs", ["external_url"])))
@@ -2152,7 +2372,10 @@ def run(tier: str, seed: int, replay: str | None = None) -> int:
              "abbreviations with labels shared between comments / wide-indented / starting with a code block / "
              "`Word: text` after the header) x type extension, generic bindings, interface blocks with bodies x display "
              "x declarations with character literals holding comment look-alikes (one line / continued inside a literal, "
-             "mixed quote characters) x parts of the text moved into (nested) include files; "
+             "mixed quote characters) x parts of the text moved into (nested) include files "
+             "x several `;`-separated declarations on one line (comment inline at the end / on the following lines / alt "
+             "block, trailing `;`, dummy arguments) x derived types local to procedures (entities without URL); per "
+             "converted entity also the summary rule (doc, URL, summary metadata -> meta.summary) and the summary oracle; "
              "counted: distinct (entity, tracer sequence, doc features, file) tuples whose entity has a non-empty doc comment",
         samples=samples,
         traces_validated_against_impl=ev_micro + n_cases + n_pipe,
@@ -2178,6 +2401,11 @@ def run(tier: str, seed: int, replay: str | None = None) -> int:
         "a statement continued over several lines carries no inline comment on its last line (on a line that starts "
         "inside a continued literal the reader keeps a trailing comment as code: C02's known finding); include files "
         "hold whole entities with their comments, never a part of a comment block or of a continued statement",
+        "the summary model starts at the HTML that Markdown returned (entity.doc and the converted `summary:` value are "
+        "inputs); str.strip is modelled for ASCII white space; a doc that contains a TAB is not sent to the model",
+        "a line of several `;`-separated statements is only documented by comments that FOLLOW it (they belong to the "
+        "last statement); a preceding block in front of such a line is not generated (undocumented which statement it "
+        "would document)",
         "one source file per project: conversion order across files, type extension across modules of different "
         "files and external entities (`external_url`, the only skip attribute of markdownable_items) are not generated",
         "the entity-tree walk uses the harness's own list of child collections (CHILD_ATTRS); the HTML pages "
